@@ -65,6 +65,10 @@ def check(reg, tier):
     from contracts import interp_data
     interp_data.contract(reg, PROP, {"selection"})
     interp_data.contract_2d(reg, PROP)
+    # which parameters are dispersible is taken from the live tables by the get_mesh contracts: checked against the
+    # declarations in the model files
+    from contracts import tables
+    tables.check(reg, PROP, "dispersible")
     reg.assume("weights.get_weights replaced by its contract (C02): returns two fresh arrays")
     reg.assume("parameter tables of the builtin models are data facts from the live modules")
     reg.assume("SasView/bumps object plumbing outside the named functions is not under contract")
